@@ -180,6 +180,14 @@ def oracle_merge(line, out, info):
         want = AB.get(e) if e in eb else AC.get(e) if e in ec else A.get(e)
         if M.get(e) != want:
             return "merged store has %s=%s, expected %s" % (e, M.get(e), want)
+    # M' is the same set of files arrived in another order (other branch first, modification times running
+    # against the names): "combined in any order"
+    if st.get("M'") is not None:
+        M2 = st["M'"][0]
+        for e in set(A) | set(AB) | set(AC) | set(M2):
+            want = AB.get(e) if e in eb else AC.get(e) if e in ec else A.get(e)
+            if M2.get(e) != want:
+                return "merged store (files arrived in another order) has %s=%s, expected %s" % (e, M2.get(e), want)
     e = index_ok(M, st["M"][1])
     return e
 
@@ -302,6 +310,31 @@ def run(chk, replay=None):
             if ngen == 1:
                 chk.sample(ml)
         kinds["gen"] = ngen
+        # the same generator shared by the threads of one process: next_element is one atomic step in the
+        # model (fetch_add); this run validates that reading on the real code
+        npar = 0
+        for (nt, per) in ([(8, 20000), (16, 5000)] if tier == "quick" else [(8, 200000), (16, 100000), (4, 50000), (2, 50000)]):
+            d = C.scratch_dir("ecpar")
+            try:
+                start = rng.choice([1, 7, 2 ** 32])
+                with open(os.path.join(d, "%016d" % 1), "w") as fh:
+                    fh.write(str(start))
+                rc, out = C.sh([ecsdrv, "genpar", d, str(nt), str(per)], env={"XVC_VERIF_RANDOM": "12345"}, timeout=300)
+            finally:
+                C.rm_rf(d)
+            line = out.strip().split("\n")[-1]
+            npar += 1
+            case = "genpar start=%d threads=%d per_thread=%d" % (start, nt, per)
+            chk.count(case, True)
+            want = "total=%d distinct=%d min=%d max=%d saved=%d" % (nt * per, nt * per, start, start + nt * per - 1, start + nt * per)
+            if line != want:
+                m = re.match(r"total=(\d+) distinct=(\d+)", line)
+                dup = bool(m) and int(m.group(2)) < int(m.group(1))
+                chk.fail("oracle" if dup else "correspondence",
+                         ("entities handed out twice within one session by concurrent allocations: " if dup else "parallel allocation: ") + "%s gives %s, expected %s" % (case, line, want),
+                         {"input": case, "observed": line, "expected": want, "kind": "impl-history",
+                          "theorem_or_correspondence": "entities_fresh_linear (next_element atomic)"}, name="genpar", has_input=dup)
+        kinds["genpar"] = npar
 
     # shrink and report (at most 3 distinct reports)
     reported = 0
